@@ -82,6 +82,10 @@ def refcomps(fit):
     C["eulerPsi"] = (grp("atoms", "RMSD_atoms", o) + R, "10.0")
     C["eigenvector-diff"] = (grp("atoms", "RMSD_atoms", o if fit != "plain" else FIT["plain"]) + R +
                              "    vectorFile %s/rmsd_atoms_random.xyz\n    differenceVector yes\n" % IN, "0.1")
+    if fit == "plain":
+        # default fitting chosen by the component itself (no fitting options in the atoms block)
+        C["eigenvector-default"] = (grp("atoms", "RMSD_atoms", "") + R + "    vectorFile %s/rmsd_atoms_random.xyz\n" % IN, "0.1")
+        C["eigenvector-default-norm"] = (grp("atoms", "RMSD_atoms", "") + R + "    vectorFile %s/rmsd_atoms_random.xyz\n    normalizeVector yes\n" % IN, "0.1")
     return C
 
 
